@@ -206,6 +206,8 @@ def rcase(rng, dtype=None, depth=None):
                 levels[name] = L.graph_props(decoy_graph(rng), rng.random() < 0.5)
     case["chan"], case["group"], case["root"] = (enc_props(levels[x]) for x in order)
     case["placement"] = "none" if at == 3 else order[at]
+    if case.get("daqmx") is None and rng.random() < 0.3:
+        case["obj_order"] = rng.choice(["chan_first", "late_group"])
     return case
 
 
@@ -272,6 +274,12 @@ def build_file(case):
     data = dec_arr(case["data"])
     bounds = [0] + list(case["cuts"]) + [len(data)]
     segs = [data[bounds[i]:bounds[i + 1]] for i in range(len(bounds) - 1)]
+    if case.get("obj_order"):
+        # objects in an order the writer never produces (group / root after the channel, or first appearing in a
+        # later metadata-only segment): scaling properties must still be found at every level
+        raw = L.raw_order_file(root, group, chan, segs, case["obj_order"])
+        if raw is not None:
+            return raw, data, {}
     return L.writer_file(root, group, chan, segs), data, {}
 
 
